@@ -244,6 +244,42 @@ class MIPS32(Isa):
     MNEMONIC = {"o": "addiu", "p": "addiu", "nop": "nop"}
 
 
+def decode_x64(isa, data, sym_at):
+    """table decode of a code block built from this alphabet -> [ins]; sym_at(off) -> label name | None"""
+    out = []
+    i = 0
+    n = len(data)
+    while i < n:
+        c = data[i]
+        if c == 0xB0:
+            out.append(("o", data[i + 1])); i += 2
+        elif c == 0xB3:
+            out.append(("p", data[i + 1])); i += 2
+        elif c == 0xEB:
+            out.append(("jmp", sym_at(i + 1))); i += 2
+        elif c == 0x74:
+            out.append(("jcc", sym_at(i + 1))); i += 2
+        elif c == 0xE8:
+            out.append(("call", sym_at(i + 1))); i += 5
+        elif c == 0xC3:
+            out.append(("ret",)); i += 1
+        elif c == 0xFF and data[i + 1] == 0xE0:
+            out.append(("ijmp",)); i += 2
+        elif c == 0xFF and data[i + 1] == 0xD0:
+            out.append(("icall",)); i += 2
+        elif c == 0x48 and data[i + 1 : i + 3] == b"\x8d\x05":
+            out.append(("lea", sym_at(i + 3))); i += 7
+        elif c == 0x8D and data[i + 1] == 0x05 and isa.name == "ia32":
+            out.append(("lea", sym_at(i + 2))); i += 6
+        elif c == 0x90:
+            out.append(("nop",)); i += 1
+        else:
+            raise ValueError("cannot table-decode byte %#x at %d of %s" % (c, i, data.hex()))
+    return out
+
+
+X64.decode = decode_x64
+
 FF = gtirb.Module.FileFormat
 TARGETS = {
     "x64-elf": (X64(), FF.ELF),
